@@ -322,6 +322,12 @@ func (gl *vfGroupLayer) handleOffsetCommit(c *vfSimConn, key, version int16, bod
 	if a := vfgConnAction(f); a != "" {
 		return nil, a
 	}
+	gl.sim.mu.Lock()
+	dead := c.dead
+	gl.sim.mu.Unlock()
+	if dead {
+		return nil, "close"
+	}
 	gl.mu.Lock()
 	g := gl.group(group)
 	if member != "" || gen >= 0 {
